@@ -31,6 +31,23 @@ func (e *Exec) intrinsic(fn *ssa.Function) natFn {
 
 func (e *Exec) intrinsic0(fn *ssa.Function) natFn {
 	name := fn.String()
+	if hf, ok := e.Cfg.FuncStubs[name]; ok && fn.Pkg != nil {
+		// a function of the code under test replaced by a harness function of the same signature (stated stub)
+		target := fn.Pkg.Func(hf)
+		if target == nil {
+			for _, p := range e.P.Pkgs {
+				if f := p.Func(hf); f != nil && underTest(p) {
+					target = f
+				}
+			}
+		}
+		if target == nil {
+			e.unsupported("func_stubs: harness function " + hf + " not found")
+		}
+		return func(e *Exec, _ *ssa.Function, args []Value) Value {
+			return e.callFunction(target, args, nil, nil)
+		}
+	}
 	if f, ok := intrinsics[name]; ok {
 		return f
 	}
